@@ -207,10 +207,11 @@ def main(tier, seed):
     f.write_text("\n".join(lines) + "\n")
     rc, out = coqc_file(f, timeout=900)
     nums = parse_nat_list(out) if rc == 0 else None
-    if not b["ok"]:
-        ck.violation({"kind": "proof-broken", "what_no_longer_checks": f"Prop_C14.v {b['theorems']}", "log": b["log"][-1500:], "forbidden": b["forbidden"]}, no_input=True)
     if direct_bad:
         ck.violation(dict(direct_bad[0], more=direct_bad[1:]))
+    if not b["ok"]:
+        ck.violation({"kind": "proof-broken", "what_no_longer_checks": f"Prop_C14.v {b['theorems']} (incl. the equivalence of the validators regenerated from point.py with the model)",
+                      "log": b["log"][-1500:], "forbidden": b["forbidden"], "translator_refused": regen.refused}, no_input=not direct_bad)
     elif nums is None:
         ck.violation({"kind": "model-evaluation-failed", "what_no_longer_checks": "cases_c14.v", "log": out[-800:]}, no_input=True)
     elif len(nums) > 1:
